@@ -1,0 +1,34 @@
+//go:build verif
+
+/*
+Copyright The Helm Authors.
+
+Licensed under the Apache License, Version 2.0 (the "License");
+you may not use this file except in compliance with the License.
+You may obtain a copy of the License at
+
+    http://www.apache.org/licenses/LICENSE-2.0
+
+Unless required by applicable law or agreed to in writing, software
+distributed under the License is distributed on an "AS IS" BASIS,
+WITHOUT WARRANTIES OR CONDITIONS OF ANY KIND, either express or implied.
+See the License for the specific language governing permissions and
+limitations under the License.
+*/
+
+package cmd
+
+import (
+	"io"
+
+	"github.com/spf13/cobra"
+
+	"helm.sh/helm/v4/pkg/action"
+)
+
+// NewRootCmdWithConfigForVerif exposes newRootCmdWithConfig so that a verification harness can drive the
+// command line (flag parsing and wiring of pkg/cmd) against an injected action.Configuration.
+// Compiled only with the "verif" build tag.
+func NewRootCmdWithConfigForVerif(actionConfig *action.Configuration, out io.Writer, args []string) (*cobra.Command, error) {
+	return newRootCmdWithConfig(actionConfig, out, args)
+}
